@@ -73,11 +73,30 @@ def m_urlparse(url, scheme="", allow_fragments=True):
     return SymParseResult(T, [], [], path, params, query, frag)
 
 
+def _contract_result(u, fields):
+    """totality harnesses only (models_str.CONTRACT_MODE): for a target outside the modelled origin-form, urlsplit/urlparse
+    "return a result whose components are strings, or raise ValueError" (e.g. 'Invalid IPv6 URL'); both are explored, the
+    component values are not observables there"""
+    if truth(mkbool(z3.Bool(Ctx.cur.fresh("urlsplit_ok")))):
+        r = SymParseResult(type(u), [], [], u.cells, [], [], [])
+        if fields == 5:
+            r.params = None
+        return r
+    raise ValueError("Invalid URL (contract model)")
+
+
 def m_urlsplit(url, scheme="", allow_fragments=True):
     u = V.unwrap(url)
     if not V.is_sym(u):
         return _up.urlsplit(u, scheme, allow_fragments)
-    T, cells, query, frag = _split(u)
+    from . import models_str as _ms
+
+    try:
+        T, cells, query, frag = _split(u)
+    except Unsupported:
+        if _ms.CONTRACT_MODE:
+            return _contract_result(u, 5)
+        raise
     r = SymParseResult(T, [], [], cells, [], query, frag)
     r.params = None
     return r
@@ -86,6 +105,10 @@ def m_urlsplit(url, scheme="", allow_fragments=True):
 def m_parse_qsl(qs, *a, **k):
     q = V.unwrap(qs)
     if V.is_sym(q):
+        from . import models_str as _ms
+
+        if _ms.CONTRACT_MODE:
+            return []  # parse_qsl (non-strict) never raises; the pairs are not observables of a totality harness
         raise Unsupported("parse_qsl on a symbolic query string (queries are enumerated concretely)")
     return _up.parse_qsl(q, *a, **k)
 
